@@ -105,7 +105,8 @@ def gen(ch, tier):
     opts["mathet"] = ch.coin(0.4)
     opts["gamma_cat"] = ch.coin(0.6)
     opts["gamma_k"] = ch.coin(0.6)
-    opts["seed"] = ch.randint(0, 2**31 - 1)
+    # boundary seeds are legal values of --seed (0 is falsy, 2**32 - 1 is the largest NumPy accepts)
+    opts["seed"] = ch.choice([0, 0, 1, 2**32 - 1]) if ch.coin(0.25) else ch.randint(0, 2**31 - 1)
     sep = ch.choice([",", ",", ";", "\t"]) if fmt == "csv" else ","
     if sep != ",":
         opts["separator"] = sep
